@@ -60,9 +60,9 @@ func evalFnsOf(t *Tree, pp string) map[*ssa.Function]bool {
 func c03If(c *Ctx, pp, tag string) {
 	r, t := c.R, c.T
 	pk := t.SSA[pp]
-	f := pk.Func("RunIfElseStmt")
-	runStmts := pk.Func("RunStmts")
-	condTrue := pk.Func("condTrue")
+	f := pkgFunc(pk, "RunIfElseStmt")
+	runStmts := pkgFunc(pk, "RunStmts")
+	condTrue := pkgFunc(pk, "condTrue")
 	if f == nil || runStmts == nil || condTrue == nil {
 		r.Undecided("IF-FIRST", tag+".RunIfElseStmt", "", "unresolved anchor")
 		return
@@ -85,6 +85,9 @@ func c03If(c *Ctx, pp, tag string) {
 		}
 	})
 	if branchBody == nil {
+		if c03IfSelect(c, f, tag, runStmts, condTrue, evals) {
+			return
+		}
 		r.Ob("IF-FIRST", tag+".RunIfElseStmt branch body", t.Pos(f.Pos()), false, "execution of ifstmt.Block.Stmts not found")
 		return
 	}
@@ -191,7 +194,7 @@ func stmtsExecuted(call *ssa.Call, runStmts *ssa.Function) (string, bool) {
 		}
 		found := false
 		allInstrs(cal, func(in ssa.Instruction) {
-			if c2, ok := in.(*ssa.Call); ok && c2.Call.StaticCallee() == runStmts && len(c2.Call.Args) >= 2 && path(c2.Call.Args[1]) == prm.Name()+".Stmts" {
+			if c2, ok := in.(*ssa.Call); ok && c2.Call.StaticCallee() == runStmts && len(c2.Call.Args) >= 2 && path(c2.Call.Args[1]) == pname(prm)+".Stmts" {
 				found = true
 			}
 		})
@@ -389,9 +392,9 @@ func c03Scopes(c *Ctx, pp, tag string) {
 func c03Flags(c *Ctx, pp, tag string) {
 	r, t := c.R, c.T
 	pk := t.SSA[pp]
-	runStmts := pk.Func("RunStmts")
+	runStmts := pkgFunc(pk, "RunStmts")
 	stmtRet := t.Method(pp, "Task", "StmtRetrun")
-	forbreak, forcontinue := pk.Func("forbreak"), pk.Func("forcontinue")
+	forbreak, forcontinue := pkgFunc(pk, "forbreak"), pkgFunc(pk, "forcontinue")
 	isFlagLoad := func(v ssa.Value, name string) bool {
 		u, ok := v.(*ssa.UnOp)
 		if !ok || u.Op != token.MUL {
@@ -514,7 +517,7 @@ func c03Flags(c *Ctx, pp, tag string) {
 				}
 				if g == runStmts || g == stmtRet || consumes(x) != 0 {
 					rel = true
-				} else if g == pk.Func("RunStmt") || g == pk.Func("RunExpr") {
+				} else if g == pkgFunc(pk, "RunStmt") || g == pkgFunc(pk, "RunExpr") {
 					// the statement/expression dispatcher: evaluating a complete statement or an expression leaves the
 					// flags as they are (what this rule establishes for the loop statements, and only they clear flags)
 				} else if (g.Pkg == pk || (g.Parent() != nil && g.Parent().Pkg == pk)) && flagRelevant(g, depth+1) {
@@ -533,7 +536,7 @@ func c03Flags(c *Ctx, pp, tag string) {
 	var edgeSet func(b *ssa.BasicBlock, si int, st int) uint16
 	var helperSummary func(h *ssa.Function) (*flagSummary, bool)
 	helperSummary = func(h *ssa.Function) (*flagSummary, bool) {
-		if h == nil || len(h.Blocks) == 0 || h == forbreak || h == forcontinue || h == stmtRet || h == runStmts || isTakeFlag(h) || h == pk.Func("RunStmt") || h == pk.Func("RunExpr") {
+		if h == nil || len(h.Blocks) == 0 || h == forbreak || h == forcontinue || h == stmtRet || h == runStmts || isTakeFlag(h) || h == pkgFunc(pk, "RunStmt") || h == pkgFunc(pk, "RunExpr") {
 			return nil, false
 		}
 		if h.Pkg != pk && (h.Parent() == nil || h.Parent().Pkg != pk) {
@@ -848,7 +851,7 @@ func c03Flags(c *Ctx, pp, tag string) {
 		}
 	}
 	// three-clause loop: the Loop clause is evaluated on every cycle that reaches the back edge
-	if f := pk.Func("RunForStmt"); f != nil {
+	if f := pkgFunc(pk, "RunForStmt"); f != nil {
 		var loopEval *ssa.Call
 		evals := evalFnsOf(t, pp)
 		allInstrs(f, func(in ssa.Instruction) {
@@ -897,8 +900,8 @@ func firstPos(b *ssa.BasicBlock) token.Pos {
 func c03Iter(c *Ctx, pp, tag string) {
 	r, t := c.R, c.T
 	pk := t.SSA[pp]
-	f := pk.Func("RunForInStmt")
-	runStmts := pk.Func("RunStmts")
+	f := pkgFunc(pk, "RunForInStmt")
+	runStmts := pkgFunc(pk, "RunStmts")
 	if f == nil || runStmts == nil {
 		r.Undecided("ITER", tag+".RunForInStmt", "", "unresolved anchor")
 		return
@@ -969,7 +972,7 @@ func c03Vars(c *Ctx) {
 	allInstrs(set, func(in ssa.Instruction) {
 		switch x := in.(type) {
 		case *ssa.MapUpdate:
-			if path(x.Map) == set.Params[0].Name()+".Data" {
+			if path(x.Map) == pname(set.Params[0])+".Data" {
 				insRecv = true
 			} else {
 				insRecv = false
@@ -1198,20 +1201,41 @@ func c03Vars(c *Ctx) {
 		r.Ob("VARS", relName(f)+" walks the chain of enclosing scopes", t.Pos(f.Pos()), walks, "cur = cur.Before inside the search loop")
 	}
 	// GetKey: stack first; input only when the stack lookup failed
-	var sget, iget *ssa.Call
-	allInstrs(gk, func(in ssa.Instruction) {
-		if call, ok := in.(*ssa.Call); ok {
-			if call.Call.StaticCallee() == get {
-				sget = call
+	// … in GetKey itself, or in the same-package lookup helper it delegates to (two levels)
+	okOrder := false
+	gkFns := []*ssa.Function{gk}
+	for i := 0; i < len(gkFns) && i < 6; i++ {
+		allInstrs(gkFns[i], func(in ssa.Instruction) {
+			if call, ok := in.(*ssa.Call); ok {
+				if g := call.Call.StaticCallee(); g != nil && g.Pkg == gk.Pkg && len(g.Blocks) > 0 && g != get && len(gkFns) < 6 {
+					dup := false
+					for _, x := range gkFns {
+						if x == g {
+							dup = true
+						}
+					}
+					if !dup && g.Signature.Recv() != nil && strings.HasSuffix(namedOf(g.Params[0].Type()), ".Task") {
+						gkFns = append(gkFns, g)
+					}
+				}
 			}
-			if call.Call.IsInvoke() && call.Call.Method.Name() == "Get" {
-				iget = call
+		})
+	}
+	for _, gk := range gkFns {
+		var sget, iget *ssa.Call
+		allInstrs(gk, func(in ssa.Instruction) {
+			if call, ok := in.(*ssa.Call); ok {
+				if call.Call.StaticCallee() == get {
+					sget = call
+				}
+				if call.Call.IsInvoke() && call.Call.Method.Name() == "Get" {
+					iget = call
+				}
 			}
+		})
+		if sget == nil || iget == nil || !precedes(sget, iget) {
+			continue
 		}
-	})
-	okOrder := sget != nil && iget != nil && precedes(sget, iget)
-	if okOrder {
-		okOrder = false
 		for _, ec := range controlling(iget.Block()) {
 			if bo, ok := ec.Cond.(*ssa.BinOp); ok && isNilConst(bo.Y) {
 				if ex, ok := bo.X.(*ssa.Extract); ok && ex.Tuple == ssa.Value(sget) && ((bo.Op == token.EQL && !ec.Pol) || (bo.Op == token.NEQ && ec.Pol)) {
@@ -1301,6 +1325,10 @@ func isAliasFn(h *ssa.Function) bool {
 }
 
 func aliasBeforeUse(f *ssa.Function) (bool, string) {
+	return aliasBeforeUseDepth(f, 0)
+}
+
+func aliasBeforeUseDepth(f *ssa.Function, depth int) (bool, string) {
 	if f == nil {
 		return false, "function not found"
 	}
@@ -1323,6 +1351,13 @@ func aliasBeforeUse(f *ssa.Function) (bool, string) {
 				if isAliasFn(cal) {
 					aliased, viaFn = true, true
 					continue
+				}
+				// handed on to a same-package function that itself maps `_` before any lookup (a lookup helper)
+				if cal != nil && inModule(cal) && cal.Pkg == f.Pkg && depth < 2 && cal != f {
+					if ok, _ := aliasBeforeUseDepth(cal, depth+1); ok {
+						aliased, viaFn = true, true
+						continue
+					}
 				}
 				nm := "dynamic call"
 				if cal != nil {
@@ -1449,4 +1484,208 @@ func taskField(fa *ssa.FieldAddr) bool {
 		return strings.HasSuffix(namedOf(in.X.Type()), ".Task")
 	}
 	return false
+}
+
+// c03IfSelect: the if/elif/else executor split into a selection phase and an execution phase: a same-package
+// selector evaluates the conditions in order and returns the block to run (the first truthy branch's, or — either
+// returned by the selector after the list is exhausted, or run by the executor when the selector reports "none" —
+// the else block); the executor runs what was selected once. The same six facts as for the in-line form.
+func c03IfSelect(c *Ctx, f *ssa.Function, tag string, runStmts, condTrue *ssa.Function, evals map[*ssa.Function]bool) bool {
+	r, t := c.R, c.T
+	var sel *ssa.Call
+	allInstrs(f, func(in ssa.Instruction) {
+		call, ok := in.(*ssa.Call)
+		if !ok {
+			return
+		}
+		h := call.Call.StaticCallee()
+		if h == nil || h.Pkg != f.Pkg || len(h.Blocks) == 0 || h.Signature.Results().Len() < 2 {
+			return
+		}
+		if strings.HasSuffix(h.Signature.Results().At(0).Type().String(), "ast.BlockStmt") {
+			sel = call
+		}
+	})
+	if sel == nil {
+		return false
+	}
+	h := sel.Call.StaticCallee()
+	r.Fn(relName(h))
+	// --- the executor: runs the selected block, once, outside any loop; an else run by the executor sits on the
+	// selector's "none" answer
+	var runSel, runElse []*ssa.Call
+	elseByPhi := false
+	allInstrs(f, func(in ssa.Instruction) {
+		call, ok := in.(*ssa.Call)
+		if !ok {
+			return
+		}
+		p, isExec := stmtsExecuted(call, runStmts)
+		if !isExec {
+			return
+		}
+		switch {
+		case strings.HasPrefix(p, h.Name()+"(") && strings.Contains(p, ")#0"):
+			runSel = append(runSel, call)
+		case strings.HasSuffix(p, ".Else.Stmts"):
+			runElse = append(runElse, call)
+		default:
+			// `if !found { block = stmt.Else }` then one run of block: the block is the selector's choice or, on the
+			// selector's negative answer, the else block
+			if blk := blockOfStmts(call, runStmts); blk != nil {
+				if ph, isP := blk.(*ssa.Phi); isP && len(ph.Edges) == 2 {
+					okSel, okElseEdge := false, false
+					for i, e := range ph.Edges {
+						if ex, isE := e.(*ssa.Extract); isE && ex.Tuple == ssa.Value(sel) && ex.Index == 0 {
+							okSel = true
+							continue
+						}
+						if strings.HasSuffix(path(e), ".Else") {
+							for _, ec := range append(controlling(ph.Block().Preds[i]), edgeInto(ph.Block().Preds[i], ph.Block())...) {
+								if ex, isE := ec.Cond.(*ssa.Extract); isE && ex.Tuple == ssa.Value(sel) && ex.Index == 1 && !ec.Pol {
+									okElseEdge = true
+								}
+								if u, isU := ec.Cond.(*ssa.UnOp); isU && u.Op == token.NOT {
+									if ex, isE := u.X.(*ssa.Extract); isE && ex.Tuple == ssa.Value(sel) && ex.Index == 1 && ec.Pol {
+										okElseEdge = true
+									}
+								}
+							}
+						}
+					}
+					if okSel && okElseEdge {
+						runSel = append(runSel, call)
+						elseByPhi = true
+					}
+				}
+			}
+		}
+	})
+	if len(runSel) != 1 {
+		return false
+	}
+	body := runSel[0]
+	inLoop := func(b *ssa.BasicBlock, g *ssa.Function) bool {
+		for _, l := range naturalLoops(g) {
+			if l.Blocks[b] {
+				return true
+			}
+		}
+		return false
+	}
+	// --- the selector
+	var branchRets, elseRets []*ssa.Return
+	okTruthy, okElseOut, okCondFirst := true, true, false
+	nTruth := 0
+	allInstrs(h, func(in ssa.Instruction) {
+		switch x := in.(type) {
+		case *ssa.Return:
+			p := path(x.Results[0])
+			switch {
+			case strings.Contains(p, "[*].Block"):
+				branchRets = append(branchRets, x)
+				g := false
+				for _, ec := range controlling(x.Block()) {
+					if isTruthTest(ec.Cond, condTrue) && ec.Pol {
+						g = true
+					}
+				}
+				if !g || !inLoop(x.Block(), h) && false {
+					okTruthy = false
+				}
+			case strings.HasSuffix(p, ".Else"):
+				elseRets = append(elseRets, x)
+				if inLoop(x.Block(), h) {
+					okElseOut = false
+				}
+			}
+		case *ssa.If:
+			if isTruthTest(x.Cond, condTrue) {
+				nTruth++
+				// from the truthy edge nothing more is evaluated
+				tb := x.Block().Succs[0]
+				allInstrs(h, func(i2 ssa.Instruction) {
+					if call, ok := i2.(*ssa.Call); ok && evals[call.Call.StaticCallee()] && len(tb.Instrs) > 0 && (i2.Block() == tb || reachableFrom(tb.Instrs[0], call)) {
+						okTruthy = false
+					}
+				})
+			}
+		case *ssa.Call:
+			if evals[x.Call.StaticCallee()] && len(x.Call.Args) >= 2 && strings.Contains(path(x.Call.Args[1]), "[*].Condition") {
+				okCondFirst = true
+			}
+		}
+	})
+	if len(branchRets) == 0 {
+		return false
+	}
+	r.Ob("IF-FIRST", tag+".RunIfElseStmt runs a branch only when its condition is truthy", t.Pos(body.Pos()), okTruthy,
+		"the selector "+h.Name()+" returns a branch's block only on the true edge of condTrue(<value of that branch's condition>), and the executor runs what the selector returned")
+	var after []string
+	allInstrs(f, func(in ssa.Instruction) {
+		if call, ok := in.(*ssa.Call); ok && call != body && (evals[call.Call.StaticCallee()] || call.Call.StaticCallee() == h) {
+			if reachableFrom(body, call) {
+				after = append(after, call.Call.StaticCallee().Name())
+			}
+		}
+	})
+	for _, e := range runElse {
+		if reachableFrom(body, e) || reachableFrom(e, body) {
+			after = append(after, "else body")
+		}
+	}
+	r.Ob("IF-FIRST", tag+".RunIfElseStmt stops after the first branch that ran", t.Pos(body.Pos()), len(after) == 0 && !inLoop(body.Block(), f), fmt.Sprintf("reachable after the selected block ran: %v — exactly one branch of an if/elif/else chain may run", after))
+	r.Ob("IF-FIRST", tag+".RunIfElseStmt ends the chain at the first truthy condition", t.Pos(h.Pos()), nTruth == 1 && okTruthy,
+		fmt.Sprintf("%d truthiness test(s) in the selector; from its truthy edge the selector returns without evaluating anything else", nTruth))
+	r.Ob("IF-FIRST", tag+".RunIfElseStmt evaluates the branch's own condition first", t.Pos(h.Pos()), okCondFirst, "the selector evaluates ifstmt.Condition of the element whose block it may return")
+	// else: returned by the selector after the loop, or run by the executor on the selector's negative answer
+	okElse := false
+	detail := "the else block lies behind the exhaustion of the branch list"
+	switch {
+	case elseByPhi:
+		okElse = true
+		allInstrs(h, func(in ssa.Instruction) {
+			if ret, ok := in.(*ssa.Return); ok && len(ret.Results) >= 2 && isNilConst(ret.Results[len(ret.Results)-1]) {
+				if cv, isC := ret.Results[1].(*ssa.Const); isC && cv.Value != nil && cv.Value.ExactString() == "false" && inLoop(ret.Block(), h) {
+					okElse = false
+				}
+			}
+		})
+		detail = "the executor substitutes stmt.Else for the selected block exactly on the selector's negative answer, which it gives only after the list is exhausted"
+	case len(elseRets) > 0:
+		okElse = okElseOut
+	case len(runElse) == 1:
+		for _, ec := range controlling(runElse[0].Block()) {
+			if ex, ok := ec.Cond.(*ssa.Extract); ok && ex.Tuple == ssa.Value(sel) && ex.Index == 1 && !ec.Pol {
+				okElse = true
+			}
+		}
+		// and the selector's negative answer is only given after the list is exhausted
+		allInstrs(h, func(in ssa.Instruction) {
+			if ret, ok := in.(*ssa.Return); ok && len(ret.Results) >= 2 && isNilConst(ret.Results[len(ret.Results)-1]) {
+				if cv, isC := ret.Results[1].(*ssa.Const); isC && cv.Value != nil && cv.Value.ExactString() == "false" && inLoop(ret.Block(), h) {
+					okElse = false
+				}
+			}
+		})
+		detail = "the executor runs stmt.Else only when the selector found no truthy branch, which it reports only after the list is exhausted"
+	}
+	r.Ob("IF-FIRST", tag+".RunIfElseStmt runs else only after every condition failed", t.Pos(f.Pos()), okElse, detail)
+	return true
+}
+
+// blockOfStmts: the call is RunStmts(ctx, X.Stmts): the block value X.
+func blockOfStmts(call *ssa.Call, runStmts *ssa.Function) ssa.Value {
+	if call.Call.StaticCallee() != runStmts || len(call.Call.Args) < 2 {
+		return nil
+	}
+	ld, ok := call.Call.Args[1].(*ssa.UnOp)
+	if !ok || ld.Op != token.MUL {
+		return nil
+	}
+	fa, ok := ld.X.(*ssa.FieldAddr)
+	if !ok || fieldName(fa) != "Stmts" {
+		return nil
+	}
+	return fa.X
 }
